@@ -1,5 +1,6 @@
 import SemVerif.Spec.Preds
 import SemVerif.Spec.Codec
+import SemVerif.Spec.CodecStack
 open SemVerif
 
 def panicProj (r : Result) (s : String) : String := if r.panic.isSome then "panic" else s
@@ -83,7 +84,7 @@ def flushGroup (prop : String) (g : GroupAcc) : IO Unit := do
       | none => ""
     IO.println s!"CASE\t{g.firstIdx}\t{g.hdr}\t{if g.full then 1 else 0}\t{";".intercalate ti}\t{";".intercalate tm}\t{if g.full then 1 else 0}\t{feat},group={g.impl.length}"
 
-partial def loop (prop : String) (h : IO.FS.Stream) (idx : Nat) (curP : Option Program) (g : GroupAcc) (curX : String := "") (curJ : Option String := none) : IO Unit := do
+partial def loop (prop : String) (h : IO.FS.Stream) (idx : Nat) (curP : Option Program) (g : GroupAcc) (curX : String := "") (curJ : Option String := none) (curK : Option String := none) : IO Unit := do
   let line ← h.getLine
   if line.isEmpty then
     flushGroup prop g
@@ -99,9 +100,11 @@ partial def loop (prop : String) (h : IO.FS.Stream) (idx : Nat) (curP : Option P
       if !isGroupProp prop then IO.println s!"CASE\t{idx}\t{g.hdr}\tBADPROG"
       loop prop h (idx + 1) none { g with bad := true }
   else if line.startsWith "X " then
-    loop prop h idx curP g (line.drop 2).toString curJ
+    loop prop h idx curP g (line.drop 2).toString curJ curK
   else if line.startsWith "J " then
-    loop prop h idx curP g curX (some (line.drop 2).toString)
+    loop prop h idx curP g curX (some (line.drop 2).toString) curK
+  else if line.startsWith "K " then
+    loop prop h idx curP g curX curJ (some (line.drop 2).toString)
   else if line.startsWith "D " then
     match curP with
     | none => loop prop h idx none g
@@ -117,10 +120,15 @@ partial def loop (prop : String) (h : IO.FS.Stream) (idx : Nat) (curP : Option P
         if prop == "C20" then
           -- projection: the data-model encoding of the AST against serde_json's value
           let enc := (encProgram p).render
-          let piOk := match curJ with
+          let astOk := match curJ with
             | some j => j == enc
             | none => true
-          IO.println s!"CASE\t{idx}\t{g.hdr}\t{if piOk then 1 else 0}\t{";".intercalate (c20Tags curX)}\t\t{if full then 1 else 0}\t{features p ri},json={curJ.isSome}"
+          -- the data-model encoding of the implementation's function stacks against serde_json's value
+          let stacksOk := match curK with
+            | some k => k == (Json.arr (ri.roots.map fun b => encStack b.context)).render
+            | none => true
+          let piOk := astOk && stacksOk
+          IO.println s!"CASE\t{idx}\t{g.hdr}\t{if piOk then 1 else 0}\t{";".intercalate (c20Tags curX)}\t\t{if full then 1 else 0}\t{features p ri},json={curJ.isSome},stacks={curK.isSome},astOk={astOk},stacksOk={stacksOk}"
           loop prop h (idx + 1) none g
         else if isGroupProp prop then
           loop prop h (idx + 1) none { g with impl := (p, ri) :: g.impl, model := (p, rm) :: g.model, full := g.full && full }
